@@ -64,7 +64,7 @@ def gen_identity_unwrappable(seed, big):
     out = []
     pres = ['a\n\n', 'a\n  \n', '\n\n', 'a\n \n \n', '  a\n\n\n', 'a\n']
     posts = ['\nb\n', 'b\n', '\n\nb\n', '  \n b\n', '']
-    bodies = ['', 'one\n', '  one  \n']
+    bodies = ['', 'one\n', '  one  \n', '\n', '  \n', '\t\n']     # incl. one line that is completely empty / blank
     for pre in pres:
         for post in posts:
             for body in bodies:
@@ -746,6 +746,25 @@ def gen_dedent_crlf(seed, big):
     return out
 
 
+def gen_unwrap_lines_intact_crlf(seed, big):
+    """C14 inside an unwrapped body, CRLF text: the documents of gen_dedent_crlf (2-5 inner lines, empty and blank ones
+    included), oracle = every surviving non-blank line, trimmed, appears verbatim and in order"""
+    out = []
+    for req, _ in gen_dedent_crlf(seed + 101, big):
+        src = req['source']
+        ls = src.split('\r\n')
+        want = [l.strip() for l in ls if l.strip() and 'unwrap-block' not in l and l.strip() not in ('if a {', '}', f'</{RM}>')]
+        def oracle(r, want=want, src=src):
+            if not r.get('ok'):
+                return 'clean panicked: ' + str(r.get('panic'))[:160]
+            got = [l.strip() for l in r['output'].split('\n') if l.strip()]
+            if got != want:
+                return f'unwrapped body (CRLF): trimmed surviving lines are {got}, expected {want} (source {src!r})'
+            return None
+        out.append((req, oracle))
+    return out
+
+
 def gen_unwrap_four_lines(seed, big):
     """C11, counted in lines: a ready unwrap-block between two non-blank neighbour lines loses exactly its four lines -
     every inner line, blank ones included (also as first or last inner line), is still there, in order (lines compared
@@ -835,7 +854,7 @@ def gen_list_regions(seed, big):
             for _ in range(rnd.randint(0, 2)):
                 lines.append(rnd.choice(['a();', '  b = 1; // é', '\tc', 'これ']))
             ind = rnd.choice(['', '  ', '\t'])
-            kind = rnd.choice(['block', 'inline', 'pending', 'unwrap'])
+            kind = rnd.choice(['block', 'inline', 'inline_multi', 'pending', 'unwrap'])
             if kind == 'unwrap':
                 first = len(lines) + 1
                 body = [ind + '  ' + rnd.choice(['keep1();', 'é();']) for _ in range(rnd.randint(1, 3))]
@@ -855,6 +874,14 @@ def gen_list_regions(seed, big):
                 else:
                     lines.append(ind + pre + el + post)
                     regions.append((len(lines), len(lines), el))
+            elif kind == 'inline_multi':
+                # a ready element that starts and ends in the middle of a line and spans several lines
+                pre, post = rnd.choice(['x = ', 'é ', 'let a = 1; ']), rnd.choice([';', ' let b = 2;', ' // tü'])
+                first = len(lines) + 1
+                mids = [ind + '  ' + rnd.choice(['older();', 'é = 2;', 'これ']) for _ in range(rnd.randint(0, 3))]
+                o, c = f"<{RM} name='f1'>old();", f"last();</{RM}>"
+                lines += [ind + pre + o] + mids + [ind + c + post]
+                regions.append((first, len(lines), '\n'.join([o] + mids + [ind + c])))
             elif kind == 'block':
                 first = len(lines) + 1
                 inner = [ind + '  ' + rnd.choice(['gone();', 'é = 2;']) for _ in range(rnd.randint(0, 2))]
@@ -1046,8 +1073,8 @@ def _back_same(t, d):
 
 GENERATORS = {
     'C01': [gen_totality], 'C04': [gen_identity, gen_identity_unwrappable, gen_identity_unrecognised], 'C07': [gen_partition], 'C08': [gen_recognition], 'C05': [gen_expiry], 'C06': [gen_marker],
-    'C09': [gen_grammar], 'C10': [gen_pairing], 'C02': [gen_blocks, gen_inline, gen_nested_text_survives], 'C03': [gen_blocks, gen_inline, gen_nested_text_survives], 'C11': [gen_blocks, gen_unwrap_wrappers, gen_unwrap_four_lines], 'C17': [gen_list_all],
-    'C12': [gen_dedent, gen_dedent_nested, gen_dedent_crlf], 'C13': [gen_blanklines, gen_lines_intact], 'C14': [gen_inline, gen_dedent_nested, gen_unwrap_lines_intact], 'C15': [gen_list_regions],
+    'C09': [gen_grammar], 'C10': [gen_pairing], 'C02': [gen_blocks, gen_inline, gen_nested_text_survives], 'C03': [gen_blocks, gen_inline, gen_nested_text_survives], 'C11': [gen_blocks, gen_unwrap_wrappers, gen_unwrap_four_lines, gen_identity_unwrappable], 'C17': [gen_list_all],
+    'C12': [gen_dedent, gen_dedent_nested, gen_dedent_crlf], 'C13': [gen_blanklines, gen_lines_intact], 'C14': [gen_inline, gen_dedent_nested, gen_unwrap_lines_intact, gen_unwrap_lines_intact_crlf], 'C15': [gen_list_regions],
 }
 
 GENERATORS['C01'] = GENERATORS['C01'] + [gen_totality_everywhere]
